@@ -93,7 +93,9 @@ pub fn child(a: &Args) {
     };
     // the collector consumes a few dozen frames per run; free-running workers may have produced thousands more
     for w in per.iter_mut() { w.truncate(400); }
-    let line = json!({"result": result, "msg": msg, "stats": stats, "reports": reports, "workers": per, "built": built, "dropped": dropped, "k": k}).to_string();
+    // how many decoders really panicked inside decode() (a worker may be told to stop before it ever decodes)
+    let panics = frames.iter().filter(|f| f.act == "panic").count();
+    let line = json!({"result": result, "msg": msg, "stats": stats, "reports": reports, "workers": per, "built": built, "dropped": dropped, "k": k, "panics": panics}).to_string();
     std::fs::write(&a.out, line).expect("write child result");
 }
 
@@ -115,7 +117,7 @@ fn run_child(cfg: &Value, work: &str, idx: usize) -> Value {
                 let _ = std::fs::remove_file(&resp);
                 return match serde_json::from_str::<Value>(&s).ok() {
                     Some(v) => v,
-                    None => json!({"result": "abort", "msg": format!("child exited with {st}"), "stats": [], "reports": [], "workers": [], "built": 0, "dropped": 0, "k": 0}),
+                    None => json!({"result": "abort", "msg": format!("child exited with {st}"), "stats": [], "reports": [], "workers": [], "built": 0, "dropped": 0, "k": 0, "panics": 0}),
                 };
             }
             None => {
@@ -123,7 +125,7 @@ fn run_child(cfg: &Value, work: &str, idx: usize) -> Value {
                     let _ = ch.kill();
                     let _ = ch.wait();
                     let _ = std::fs::remove_file(&cfgp);
-                    return json!({"result": "hang", "msg": "no return within 20 s", "stats": [], "reports": [], "workers": [], "built": 0, "dropped": 0, "k": 0});
+                    return json!({"result": "hang", "msg": "no return within 20 s", "stats": [], "reports": [], "workers": [], "built": 0, "dropped": 0, "k": 0, "panics": 0});
                 }
                 std::thread::sleep(Duration::from_millis(5));
             }
